@@ -45,6 +45,7 @@ type history struct {
 	lenIndirect bool
 	eol         string
 	shuffle     bool
+	chain       bool // every plain object refers to the next object number (/Next n 0 R)
 }
 
 func (h history) String() string {
@@ -140,6 +141,11 @@ func (h history) write(seed int64) ([]byte, map[string]int) {
 	gens := map[int]int{}
 	info := map[string]int{"catalog": cat, "pages": pages, "len": lenObj}
 	bodyLen := len(tag(0, 0))
+	if h.chain {
+		for _, n := range h.nums {
+			f.Bind(fmt.Sprintf("o%d", n), n, 0) // references are written also to numbers no revision defines
+		}
+	}
 	for ri, rs := range h.revs {
 		rv := &pdfw.Rev{XRefStream: rs.xrefStream, Root: "catalog"}
 		var objs []pdfw.RevObj
@@ -160,8 +166,11 @@ func (h history) write(seed int64) ([]byte, map[string]int) {
 			key := fmt.Sprintf("o%d", n)
 			switch a {
 			case aPlain, aPacked:
-				objs = append(objs, pdfw.RevObj{Key: key, Num: n, Gen: gens[n], Packed: a == aPacked,
-					Obj: pdfw.Dict{{"V", pdfw.Str{B: []byte(tag(n, ri))}}, {"N", n}, {"R", ri}}})
+				d := pdfw.Dict{{"V", pdfw.Str{B: []byte(tag(n, ri))}}, {"N", n}, {"R", ri}}
+				if h.chain && i+1 < len(h.nums) {
+					d = append(d, pdfw.KV{K: "Next", V: pdfw.Ref{Key: fmt.Sprintf("o%d", h.nums[i+1])}})
+				}
+				objs = append(objs, pdfw.RevObj{Key: key, Num: n, Gen: gens[n], Packed: a == aPacked, Obj: d})
 			case aStream:
 				st := &pdfw.Stream{D: pdfw.Dict{{"N", n}, {"R", ri}}, Raw: []byte(tag(n, ri)), LenMode: "direct"}
 				if h.lenIndirect {
@@ -281,7 +290,20 @@ func sequences(h history, extra []int, r *rand.Rand) [][]op {
 			rnd = append(rnd, op{"get", cand[r.Intn(len(cand))]})
 		}
 	}
-	return [][]op{asc, desc, rnd}
+	seqs := [][]op{asc, desc, rnd}
+	if h.chain {
+		// resolver-level lookups only, deep ones first: what a deep resolution that ran
+		// into a dead reference leaves behind must not change the answers after it
+		var rs []op
+		for _, n := range cand {
+			rs = append(rs, op{"rsv-RD", n}, op{"rsv-R", n}, op{"rsv-deep", n}, op{"rsv-ref", n})
+		}
+		for i := len(cand) - 1; i >= 0; i-- {
+			rs = append(rs, op{"rsv-deep", cand[i]}, op{"rsv-get", cand[i]})
+		}
+		seqs = append(seqs, rs)
+	}
+	return seqs
 }
 
 type fail struct{ class, what string }
@@ -349,6 +371,20 @@ func runHistory(c *fw.Ctx, id string, h history, seed int64) {
 					return
 				}
 			}
+			// the resolver-level lookups of a sequence go through one ObjectResolver
+			// (kept across the operations) in half of the sequences, through a fresh one
+			// per lookup in the others
+			var shared *resolver.ObjectResolver
+			sharedRsv := (si+int(seed))%2 == 0 || si == 3
+			rsv := func() *resolver.ObjectResolver {
+				if !sharedRsv {
+					return resolver.NewResolver(rd)
+				}
+				if shared == nil {
+					shared = resolver.NewResolver(rd)
+				}
+				return shared
+			}
 			for oi, o := range seq {
 				var got core.Object
 				var err error
@@ -386,11 +422,15 @@ func runHistory(c *fw.Ctx, id string, h history, seed int64) {
 				case "resolve":
 					got, err = rd.Resolve(core.IndirectRef{Number: o.n, Generation: 0})
 				case "rsv-get":
-					got, err = resolver.NewResolver(rd).GetObject(o.n)
+					got, err = rsv().GetObject(o.n)
 				case "rsv-ref":
-					got, err = resolver.NewResolver(rd).ResolveReference(core.IndirectRef{Number: o.n, Generation: 0})
+					got, err = rsv().ResolveReference(core.IndirectRef{Number: o.n, Generation: 0})
 				case "rsv-deep":
-					got, err = resolver.NewResolver(rd).GetObjectResolvedDeep(o.n)
+					got, err = rsv().GetObjectResolvedDeep(o.n)
+				case "rsv-R":
+					got, err = rsv().Resolve(core.IndirectRef{Number: o.n, Generation: 0})
+				case "rsv-RD":
+					got, err = rsv().ResolveDeep(core.IndirectRef{Number: o.n, Generation: 0})
 				case "deep":
 					got, err = rd.ResolveDeep(core.Array{core.IndirectRef{Number: o.n, Generation: 0}})
 					if err == nil {
@@ -401,6 +441,23 @@ func runHistory(c *fw.Ctx, id string, h history, seed int64) {
 				}
 				c.Count("lookups_checked", 1)
 				want, defined := m[o.n]
+				if h.chain && (o.kind == "deep" || o.kind == "rsv-deep" || o.kind == "rsv-RD") && defined && want != "" {
+					// a deep resolution follows /Next: whether it fails on a reference to an
+					// object that is free or was never defined, or reads it as null, is the
+					// resolver's choice — the lookups after it must not notice either way
+					broken := false
+					for k := range h.nums {
+						if h.nums[k] > o.n {
+							if w, ok := m[h.nums[k]]; !ok || w == "" {
+								broken = true
+							}
+						}
+					}
+					if broken {
+						c.Count("deep_lookups_through_a_dead_reference", 1)
+						continue
+					}
+				}
 				switch {
 				case !defined || want == "":
 					if err == nil {
@@ -481,7 +538,7 @@ func randomHistory(r *rand.Rand) history {
 			}
 			nums = append(nums, cur)
 		}
-		h := history{nums: nums, lenIndirect: r.Intn(2) == 0, eol: []string{"\n", "\r\n", "\r"}[r.Intn(3)], shuffle: r.Intn(2) == 0}
+		h := history{nums: nums, lenIndirect: r.Intn(2) == 0, eol: []string{"\n", "\r\n", "\r"}[r.Intn(3)], shuffle: r.Intn(2) == 0, chain: r.Intn(2) == 0}
 		live := make([]bool, n)
 		freed := make([]bool, n)
 		for ri := 0; ri < nr; ri++ {
